@@ -4,6 +4,8 @@
 //!                            (same request language as the Lean driver).
 //! `harness prop  < cases`  — evaluates the property itself on the implementation.
 mod codec;
+mod curve;
+mod curveprop;
 mod frame;
 mod util;
 
@@ -47,11 +49,13 @@ fn main() {
 fn dispatch_impl(toks: &[&str]) -> String {
     None.or_else(|| frame::dispatch_impl(toks))
         .or_else(|| codec::dispatch_impl(toks))
+        .or_else(|| curve::dispatch_impl(toks))
         .unwrap_or_else(|| "bad-request".to_owned())
 }
 
 fn dispatch_prop(toks: &[&str]) -> String {
     None.or_else(|| frame::dispatch_prop(toks))
         .or_else(|| codec::dispatch_prop(toks))
+        .or_else(|| curve::dispatch_prop(toks))
         .unwrap_or_else(|| "SKIP no-oracle".to_owned())
 }
